@@ -64,6 +64,8 @@ func reg(p *propCfg) {
 
 func init() {
 	reg(&propCfg{ID: "C19", Test: "TestC19", Quick: tierCfg{6000, 4}, Thorough: tierCfg{100000, 16}})
+	reg(&propCfg{ID: "C11", Test: "TestC11", Quick: tierCfg{10000, 4}, Thorough: tierCfg{300000, 16}})
+	reg(&propCfg{ID: "C12", Test: "TestC12", Quick: tierCfg{10000, 4}, Thorough: tierCfg{200000, 16}})
 }
 
 type finding struct {
@@ -440,6 +442,33 @@ func run(p *propCfg, work, tier string, seed int64) int {
 	extraCov := map[string]any{}
 	violations := []string{}
 	inconcl := ""
+
+	// Regression tier: saved cases (shrunk counterexamples of repaired defects, corner cases).
+	{
+		cmd := exec.Command(bin, "-test.run", "^TestRegress$", "-test.count=1", "-test.timeout=10m")
+		cmd.Dir = work
+		env := append(baseEnv(), "VERIF_REGRESS_DIR="+filepath.Join(verifDir, "regress"), "VERIF_PROP="+p.ID,
+			"VERIF_HOOKS="+map[bool]string{true: "1", false: "0"}[hooks], "VERIF_REPO="+repoDir, "VERIF_DIR="+verifDir, "VERIF_KNOWN_OPEN=")
+		cmd.Env = append(env, p.Env...)
+		out, err := cmd.CombinedOutput()
+		nreg := 0
+		for _, line := range strings.Split(string(out), "\n") {
+			if strings.HasPrefix(line, "REGRESS-FAIL file=") {
+				violations = append(violations, strings.TrimPrefix(line, "REGRESS-FAIL file="))
+			}
+			if strings.HasPrefix(line, "REGRESS-COUNT ") {
+				nreg, _ = strconv.Atoi(strings.TrimPrefix(line, "REGRESS-COUNT "))
+			}
+		}
+		if err != nil && len(violations) == 0 {
+			fmt.Fprintf(os.Stderr, "regress stage failed:\n%s\n", lastLines(string(out), 30))
+			inconcl = "regress-stage-error"
+		}
+		if len(violations) > 0 {
+			fmt.Printf("%s\n", lastLines(string(out), 40))
+		}
+		extraCov["regression_cases_replayed"] = nreg
+	}
 
 	// Optional extra stages (registered per property).
 	if st := stages[p.ID]; st != nil {
